@@ -32,8 +32,25 @@ from pyvc.types import record
 
 record('C18File', _rest='Dict[Name,Arr2[Real]]', n_cells='Arr[Int]', col_names='List[Name]',
        cluster_to_row='Dict[Name,Int]')
+# raw_data of read_raw_precomputed_stats: dataset name -> array read ('n_cells' 1-D, the others 2-D)
+record('C18Raw', _rest='Dict[Name,Arr2[Real]]', n_cells='Arr[Int]')
+# per-leaf statistics: 'n_cells' scalar, every other key one row of a stored matrix
+record('C18Leaf', _rest='Dict[Name,Arr[Real]]', n_cells='Int')
+record('C18RawStats', gene_names='List[Name]', cluster_stats='Dict[Name,C18Leaf]')
+# per-node statistics (aggregate_stats): 'mean' per gene; 'var', 'n_cells', 'gt0', 'gt1', 'ge1' are
+# entries that callers may pop (read_precomputed_stats does): kept in the rest, abstracted
+record('C18Node', _rest='Dict[Name,Opaque]', mean='Arr[Real]')
+record('C18Stats', gene_names='List[Name]', cluster_stats='Dict[Name,C18Node]')
+# the taxonomy as far as the readers look at it: three read-only properties of TaxonomyTree
+record('C18Tree', as_leaves='Dict[Name,Dict[Name,List[Name]]]', all_leaves='List[Name]', leaf_level='Name')
+# CellByGeneMatrix as returned by get_leaf_means
+record('C18CBG', data='Arr2[Real]', gene_identifiers='List[Name]', cell_identifiers='List[Name]',
+       normalization='Name')
 
 FILE_TY = T.TRec('C18File')
+LEAF_TY = T.TRec('C18Leaf')
+LEAFD_TY = T.TDict(T.NAME, LEAF_TY)
+NAMES_TY = T.TList(T.NAME)
 
 H5_READERS = {
     'cell_type_mapper.diff_exp.score_utils.read_raw_precomputed_stats',
@@ -139,3 +156,248 @@ def q_json_loads(ev, state, node):
 if not getattr(_prev_loads, '_c18', False):
     q_json_loads._c18 = True
     prims.QUALIFIED['json.loads'] = q_json_loads
+
+
+# ---------------------------------------------------------------------------------------------
+# sums over a population of leaves (uninterpreted folds, unfolded where a ground term is built)
+#   c18_nsum(D, L, j)     = sum over i < j of D[L[i]]['n_cells']
+#   c18_gsum(D, L, j, g)  = sum over i < j of D[L[i]]['sum'][g]
+#   c18_fnsum(F, L, j)    = sum over i < j of F['n_cells'][F['cluster_to_row'][L[i]]]
+#   c18_fgsum(F, L, j, g) = sum over i < j of F['sum'][F['cluster_to_row'][L[i]], g]
+# D: Dict[Name,C18Leaf] (what read_raw_precomputed_stats returns), F: C18File, L: List[Name].
+# Lemma AGREE (proved by induction on j by z3 when this module is imported, check_lemmas()):
+#   if D[L[i]] holds the row of L[i] for every i < j, the D-sums equal the F-sums.
+# ---------------------------------------------------------------------------------------------
+from pyvc.values import seq_len, seq_at, dict_val   # noqa: E402
+from pyvc.engine import to_int                       # noqa: E402
+
+_IS, _RS = z3.IntSort(), z3.RealSort()
+_DS, _LS, _FS = T.sort_of(LEAFD_TY), T.sort_of(NAMES_TY), T.sort_of(FILE_TY)
+NSUM = z3.Function('c18_nsum', _DS, _LS, _IS, _IS)
+GSUM = z3.Function('c18_gsum', _DS, _LS, _IS, _IS, _RS)
+FNSUM = z3.Function('c18_fnsum', _FS, _LS, _IS, _IS)
+FGSUM = z3.Function('c18_fgsum', _FS, _LS, _IS, _IS, _RS)
+SUM_KEY = literal('sum').term
+
+_l_at = T.acc(NAMES_TY, 'at')
+_d_val = T.acc(LEAFD_TY, 'val')
+_leaf_n = T.acc(LEAF_TY, 'n_cells')
+_leaf_rest = T.acc(LEAF_TY, '__rest__')
+_LREST_TY = T.RECORDS['C18Leaf']['__rest__']
+_lrest_val = T.acc(_LREST_TY, 'val')
+_vec_at = T.acc(T.TArr(T.REAL), 'at')
+_f_n = T.acc(FILE_TY, 'n_cells')
+_f_c2r = T.acc(FILE_TY, 'cluster_to_row')
+_f_rest = T.acc(FILE_TY, '__rest__')
+_FREST_TY = T.RECORDS['C18File']['__rest__']
+_frest_val = T.acc(_FREST_TY, 'val')
+_c2r_val = T.acc(T.TDict(T.NAME, T.INT), 'val')
+_ivec_at = T.acc(T.TArr(T.INT), 'at')
+_mat_at = T.acc(T.TArr2(T.REAL), 'at')
+
+
+def _d_n(D, L, i):
+    return _leaf_n(_d_val(D)[_l_at(L)[i]])
+
+
+def _d_g(D, L, i, g):
+    return _vec_at(_lrest_val(_leaf_rest(_d_val(D)[_l_at(L)[i]]))[SUM_KEY])[g]
+
+
+def _f_row(F, L, i):
+    return _c2r_val(_f_c2r(F))[_l_at(L)[i]]
+
+
+def _f_nn(F, L, i):
+    return _ivec_at(_f_n(F))[_f_row(F, L, i)]
+
+
+def _f_g(F, L, i, g):
+    return z3.Select(_mat_at(_frest_val(_f_rest(F))[SUM_KEY]), _f_row(F, L, i), g)
+
+
+def _unfold(fn, term, X, L, j):
+    """definition of an integer-indexed fold at the ground index j (both directions)"""
+    return [fn(X, L, 0) == 0,
+            z3.Implies(j > 0, fn(X, L, j) == fn(X, L, j - 1) + term(X, L, j - 1)),
+            z3.Implies(j >= 0, fn(X, L, j + 1) == fn(X, L, j) + term(X, L, j))]
+
+
+def _unfold_g(fn, term, X, L, j):
+    g = z3.Int(fresh_name('ug'))
+    return [z3.ForAll([g], fn(X, L, 0, g) == 0, patterns=[fn(X, L, 0, g)]),
+            z3.ForAll([g], z3.Implies(j > 0, fn(X, L, j, g) == fn(X, L, j - 1, g) + term(X, L, j - 1, g)),
+                      patterns=[fn(X, L, j, g)]),
+            z3.ForAll([g], z3.Implies(j >= 0, fn(X, L, j + 1, g) == fn(X, L, j, g) + term(X, L, j, g)),
+                      patterns=[fn(X, L, j + 1, g)])]
+
+
+def _ground(*terms):
+    """no variable bound by an enclosing specification quantifier (those are named q_...)"""
+    seen, todo = set(), list(terms)
+    while todo:
+        t = todo.pop()
+        if t.get_id() in seen:
+            continue
+        seen.add(t.get_id())
+        if z3.is_app(t):
+            if t.num_args() == 0 and t.decl().name().startswith('q_'):
+                return False
+            todo.extend(t.children())
+        elif z3.is_quantifier(t):
+            todo.append(t.body())
+    return True
+
+
+def _sum_args(ev, state, node, first_ty):
+    X = coerce(ev.eval(state, node.args[0]), first_ty)
+    L = ev.eval(state, node.args[1])
+    if L.ty[0] not in ('list', 'arr') or T.sort_of(L.ty) != _LS:
+        raise Unsupported("population must be a list of names")
+    j = to_int(ev.eval(state, node.args[2]))
+    return X.term, L.term, j
+
+
+def _native_nsum(D, L, j):
+    return sum(int(D[x]['n_cells']) for x in list(L)[:j])
+
+
+def _native_gsum(D, L, j, g):
+    return sum(float(D[x]['sum'][g]) for x in list(L)[:j])
+
+
+def _native_fnsum(F, L, j):
+    return sum(int(F['n_cells'][F['cluster_to_row'][x]]) for x in list(L)[:j])
+
+
+def _native_fgsum(F, L, j, g):
+    return sum(float(F['sum'][F['cluster_to_row'][x], g]) for x in list(L)[:j])
+
+
+@prims.spec_function('c18_nsum', native=_native_nsum)
+def s_nsum(ev, state, node):
+    D, L, j = _sum_args(ev, state, node, LEAFD_TY)
+    if _ground(D, L, j):
+        state.assume(*_unfold(NSUM, _d_n, D, L, j))
+    return SymVal(T.INT, NSUM(D, L, j))
+
+
+@prims.spec_function('c18_fnsum', native=_native_fnsum)
+def s_fnsum(ev, state, node):
+    F, L, j = _sum_args(ev, state, node, FILE_TY)
+    if _ground(F, L, j):
+        state.assume(*_unfold(FNSUM, _f_nn, F, L, j))
+    return SymVal(T.INT, FNSUM(F, L, j))
+
+
+@prims.spec_function('c18_gsum', native=_native_gsum)
+def s_gsum(ev, state, node):
+    D, L, j = _sum_args(ev, state, node, LEAFD_TY)
+    g = to_int(ev.eval(state, node.args[3]))
+    if _ground(D, L, j):
+        state.assume(*_unfold_g(GSUM, _d_g, D, L, j))
+    return SymVal(T.REAL, GSUM(D, L, j, g))
+
+
+@prims.spec_function('c18_fgsum', native=_native_fgsum)
+def s_fgsum(ev, state, node):
+    F, L, j = _sum_args(ev, state, node, FILE_TY)
+    g = to_int(ev.eval(state, node.args[3]))
+    if _ground(F, L, j):
+        state.assume(*_unfold_g(FGSUM, _f_g, F, L, j))
+    return SymVal(T.REAL, FGSUM(F, L, j, g))
+
+
+def _agree_n(D, F, L, j):
+    i = z3.Int(fresh_name('an'))
+    return z3.ForAll([i], z3.Implies(z3.And(0 <= i, i < j), _d_n(D, L, i) == _f_nn(F, L, i)))
+
+
+def _agree_g(D, F, L, j, G):
+    i, g = z3.Int(fresh_name('ag')), z3.Int(fresh_name('agg'))
+    return z3.ForAll([i, g], z3.Implies(z3.And(0 <= i, i < j, 0 <= g, g < G),
+                                        _d_g(D, L, i, g) == _f_g(F, L, i, g)))
+
+
+@prims.spec_function('c18_lemma_agree', native=lambda D, F, L, j, G: True)
+def s_lemma_agree(ev, state, node):
+    """lemma AGREE (induction on j, check_lemmas): instance assumed, the call evaluates to True.
+    c18_lemma_agree(D, F, L, j, G): if for every i < j the entry D[L[i]] holds n_cells and the
+    first G entries of 'sum' of row cluster_to_row[L[i]] of F, then nsum == fnsum and
+    gsum(.., g) == fgsum(.., g) for every g < G."""
+    D = coerce(ev.eval(state, node.args[0]), LEAFD_TY).term
+    F = coerce(ev.eval(state, node.args[1]), FILE_TY).term
+    L = ev.eval(state, node.args[2]).term
+    j = to_int(ev.eval(state, node.args[3]))
+    G = to_int(ev.eval(state, node.args[4]))
+    g = z3.Int(fresh_name('lg'))
+    state.assume(z3.Implies(z3.And(j >= 0, _agree_n(D, F, L, j)), NSUM(D, L, j) == FNSUM(F, L, j)),
+                 z3.Implies(z3.And(j >= 0, _agree_g(D, F, L, j, G)),
+                            z3.ForAll([g], z3.Implies(z3.And(0 <= g, g < G),
+                                                      GSUM(D, L, j, g) == FGSUM(F, L, j, g)),
+                                      patterns=[GSUM(D, L, j, g)])))
+    return SymVal(T.BOOL, z3.BoolVal(True))
+
+
+def check_lemmas():
+    D, F, L = z3.Const('c18_lD', _DS), z3.Const('c18_lF', _FS), z3.Const('c18_lL', _LS)
+    j, g, G = z3.Int('c18_lj'), z3.Int('c18_lg'), z3.Int('c18_lG')
+
+    def proved(hyps, goal):
+        s = z3.Solver()
+        s.set('timeout', 10000)
+        s.add(*hyps)
+        s.add(z3.Not(goal))
+        return s.check() == z3.unsat
+
+    def def_n(x):
+        return _unfold(NSUM, _d_n, D, L, x) + _unfold(FNSUM, _f_nn, F, L, x)
+
+    def def_g(x):
+        return [GSUM(D, L, 0, g) == 0, FGSUM(F, L, 0, g) == 0,
+                z3.Implies(x >= 0, GSUM(D, L, x + 1, g) == GSUM(D, L, x, g) + _d_g(D, L, x, g)),
+                z3.Implies(x >= 0, FGSUM(F, L, x + 1, g) == FGSUM(F, L, x, g) + _f_g(F, L, x, g))]
+
+    ok = True
+    # numbers of cells: base, step
+    ok &= proved(def_n(j), NSUM(D, L, 0) == FNSUM(F, L, 0))
+    ok &= proved(def_n(j) + [j >= 0, z3.Implies(_agree_n(D, F, L, j), NSUM(D, L, j) == FNSUM(F, L, j)),
+                             _agree_n(D, F, L, j + 1)],
+                 NSUM(D, L, j + 1) == FNSUM(F, L, j + 1))
+    # per-gene sums (g arbitrary with 0 <= g < G): base, step
+    ok &= proved(def_g(j), GSUM(D, L, 0, g) == FGSUM(F, L, 0, g))
+    ok &= proved(def_g(j) + [j >= 0, 0 <= g, g < G,
+                             z3.Implies(_agree_g(D, F, L, j, G), GSUM(D, L, j, g) == FGSUM(F, L, j, g)),
+                             _agree_g(D, F, L, j + 1, G)],
+                 GSUM(D, L, j + 1, g) == FGSUM(F, L, j + 1, g))
+    if not ok:
+        raise RuntimeError("pyvc.ext.c18: lemma AGREE failed its induction check")
+    return ok
+
+
+check_lemmas()
+
+
+# ---------------------------------------------------------------------------------------------
+# an integer kept in a Dict[Name,Opaque] (the 'n_cells' entry of a C18Node): c18_int reads it back.
+# Axiom: c18_int(as_opaque(n)) == n for every integer n (the injection keeps the value).
+# ---------------------------------------------------------------------------------------------
+from pyvc.engine import inject_opaque   # noqa: E402
+
+_INT_INJ = inject_opaque(SymVal(T.INT, z3.IntVal(0))).term.decl()
+INT_OF = z3.Function('c18_int', T.sort_of(T.OPAQUE), _IS)
+
+
+@prims.spec_function('c18_int', native=lambda x: int(x))
+def s_c18_int(ev, state, node):
+    v = ev.eval(state, node.args[0])
+    if v.ty == T.INT:
+        return v
+    if v.ty != T.OPAQUE:
+        raise Unsupported("c18_int of a non-abstracted value")
+    key = '_c18_int_axiom'
+    if not ev.ctx.__dict__.get(key):
+        ev.ctx.__dict__[key] = True
+        n = z3.Int('c18_int_n')
+        ev.ctx.axioms.append(z3.ForAll([n], INT_OF(_INT_INJ(n)) == n, patterns=[_INT_INJ(n)]))
+    return SymVal(T.INT, INT_OF(v.term))
